@@ -1,5 +1,7 @@
 import BbRe.Lemmas.DirRead
 import BbRe.Lemmas.DirMisc
+import BbRe.Lemmas.DirPosix
+import BbRe.Lemmas.DirFuel
 /-!
 # C13 — the virtual directory tree behaves like a POSIX file hierarchy
 
@@ -191,6 +193,46 @@ theorem readdir_resume_any_cookie (P : Params) (ops : List Op) (d c k : Nat)
   · exact absurd hok hne
   · rw [hr]; rfl
 
+/-- `LookupAllChildren` and `ReadDir` list exactly the entries of the directory that
+are not hidden leaves — each of them, once, with its own name and child. -/
+theorem listings_exact (P : Params) (s : Store) (d : Nat) (op : Op)
+    (hop : op = .lookupAll d ∨ op = .readDirB d) (hok : (exec P s op).2.status = .ok) :
+    (∀ r, r ∈ (exec P s op).2.reports ↔
+        ∃ e ∈ ((exec P s op).1.dir d).entries, (e.child.isDir || !P.hidden e.name) = true ∧ r = ⟨0, e.name, e.child⟩) ∧
+    (exec P s op).2.reports.length =
+      (((exec P s op).1.dir d).entries.filter (fun e => e.child.isDir || !P.hidden e.name)).length :=
+  listing_calls_exact P s d op hop hok
+
+/-- The recursive bulk removals (`RemoveAll`, `RemoveAllChildren`, the overwritten
+entries of `CreateChildren`) always run to completion: the fuel of the work-list
+form `removeTree` is sufficient, more fuel changes nothing. -/
+theorem bulk_removal_complete (s : Store) (stack : List Nat) (extra : Nat) :
+    removeTree (removeFuel s stack) s stack = removeTree (removeFuel s stack + extra) s stack :=
+  removeFuel_sufficient s stack extra
+
+/-! ## refines_posix -/
+
+/-- `refines_posix` for the namespace operations: the abstraction `abs : Store → FS`
+(forget the order of the entries, cookies, change counters and ghost link counts;
+a directory becomes a finite map from normalised names to (name, child)) commutes
+with mkdir, mknod, open/create, link, lookup / LookupChild, remove (rmdir / unlink /
+NFSv4 REMOVE / `Remove`) and rename, executed in any reachable store, including the
+lazy expansion of directories and all error cases: the reference hierarchy
+`Spec/Posix.lean` (textbook rules plus the documented deviations D1–D8) answers
+with the same status code and the same child, and ends in the abstraction of the
+resulting store.
+
+Partial: the full `refines_posix` of DESIGN.md also covers the bulk calls
+(CreateChildren, RemoveAll, RemoveAllChildren, CreateAndEnterPrepopulatedDirectory,
+FilterChildren) and the listings as sets; for those the tie to a reference
+hierarchy is the Go monitor of `harness/cmd/dir` only. -/
+theorem refines_posix_partial (P : Params) (ops : List Op) (op : Op) (sop : BbRe.Spec.Posix.Op)
+    (hv : validOp (run P init ops) op = true) (hcov : absOp op = some sop) :
+    BbRe.Spec.Posix.step P.normalize P.hidden (abs (run P init ops)) sop =
+      (abs (step P (run P init ops) op).1, (step P (run P init ops) op).2.status,
+        (step P (run P init ops) op).2.child) :=
+  refines_step P (run P init ops) op sop (inv_reachable P ops) hv hcov
+
 /-! ## non-vacuity -/
 
 /-- Names 0..9, name 9 is hidden, names 5..8 normalise to 1..4 ("case folding"). -/
@@ -225,5 +267,10 @@ example : finished exSegs (listing exP 0 (run exP init exOps) 0 exSegs) := by
 example : ∀ p ∈ listing exP 0 (run exP init exOps) 0 exSegs, (⟨1, 1, 0, .dir 1⟩ : Entry) ∈ (p.1.dir 0).entries := by
   decide
 example : (allReports (listing exP 0 (run exP init exOps) 0 exSegs)).map (fun r => r.name) = [1, 4, 2] := by decide
+
+-- `refines_posix_partial` has instances, e.g. a rename over an existing entry in the example store
+example : validOp (run exP init exOps) (.rename 0 4 1 2) = true ∧
+    (step exP (run exP init exOps) (.rename 0 4 1 2)).2.status = .ok := by decide
+example : absOp (.rename 0 4 1 2) = some (.rename 0 4 1 2) := rfl
 
 end BbRe.Properties.C13
